@@ -46,7 +46,7 @@ impl Token {
             Self::Year => Ok(()),      // No validation
             Self::YearShort => Ok(()), // No validation
             Self::Month => {
-                if !(0..=13).contains(&val) {
+                if !(1..=12).contains(&val) {
                     Err(HifitimeError::Parse {
                         source: ParsingError::ValueError,
                         details: "invalid month",
@@ -56,7 +56,7 @@ impl Token {
                 }
             }
             Self::Day => {
-                if !(0..=31).contains(&val) {
+                if !(1..=31).contains(&val) {
                     Err(HifitimeError::Parse {
                         source: ParsingError::ValueError,
                         details: "invalid day",
